@@ -9,7 +9,7 @@ def run(repo, res, tier):
         "'=')), and parse() assigns sorted(self.errors) to the module it returns. E2: for the strict parser classes "
         "the two empty-value hooks resolve (MRO) to bodies that raise on every path, and ParseError from running out "
         "of tokens after '=' is not caught. E3: self.doc and the lexed text are one object; a whole-document regex "
-        "rewrite before lexing must not remove line feeds (regex syntax tree). E7: the placeholder's constructor stores the line number on the instance it returns. E-STATE: self.errors is fresh per "
+        "rewrite before lexing must not remove line feeds (regex syntax tree). E7: the placeholder's constructor stores the line number on the instance it returns. E8: the position handed to _empty_value is a token position or the found '=' plus a constant that keeps the '=' inside the search. E-STATE: self.errors is fresh per "
         "parse() call. T4: the permissive hook makes progress (no spin). F1: the text the parser numbers is the caller's (outcome terms of the entry points). Not decided: that the recorded number is "
         "right for every neighbourhood; order of statements.")
     effects.rule_e1(repo, res)
@@ -19,6 +19,7 @@ def run(repo, res, tier):
     effects.rule_e5(repo, res)
     effects.rule_e6(repo, res)
     effects.rule_e7(repo, res)
+    effects.rule_e8(repo, res)
     from .. import hookrules
     hookrules.rule_hook_tail(repo, res)
     from .. import langrules
